@@ -384,8 +384,10 @@ def _size_after(a, b, kind, frac):
 
 
 # ---------------------------------------------------------------------------------------------- translation to demes
-def to_demes(prog, time_units='generations', generation_time=None, scale=1.0, upto=None):
+def to_demes(prog, time_units='generations', generation_time=None, scale=1.0, upto=None, listing=None):
     """Build the demes graph of the program's meaning with demes.Builder (independent of dadi's exporter).
+    listing=seed: the same graph written down differently - ancestors (with their proportions), the sources of a pulse (with theirs)
+    and the migrations are listed in a shuffled order (simultaneous pulses keep theirs: that order has a meaning).
     scale multiplies sizes and times and divides migration rates. Returns (graph, sampled_demes, sample_times).
     upto=t: the graph is still the whole program, but the returned samples are those of the program truncated t time units before
     its end (every live deme sampled at that time, ancient samples at their own times)."""
@@ -486,6 +488,9 @@ def to_demes(prog, time_units='generations', generation_time=None, scale=1.0, up
                 if i != j and it['mig'][i][j] != 0:
                     migs.append(dict(source=aj, dest=ai, rate=it['mig'][i][j] / (2.0 * N0), start_time=t_now, end_time=end))
     b = demes.Builder(time_units=time_units, **({} if time_units == 'generations' else dict(generation_time=generation_time)))
+    lrs = None if listing is None else np.random.RandomState(listing)
+    if lrs is not None:
+        migs = [migs[i] for i in lrs.permutation(len(migs))]
     for name in order:
         d = demes_d[name]
         eps = []
@@ -495,7 +500,11 @@ def to_demes(prog, time_units='generations', generation_time=None, scale=1.0, up
             eps.append(e)
         kw = dict(epochs=eps)
         if d['ancestors'] is not None:
-            kw.update(ancestors=d['ancestors'], proportions=d['proportions'], start_time=d['start_time'] * tfac)
+            anc, prp = list(d['ancestors']), list(d['proportions'])
+            if lrs is not None and len(anc) > 1:
+                o = list(lrs.permutation(len(anc)))
+                anc, prp = [anc[i] for i in o], [prp[i] for i in o]
+            kw.update(ancestors=anc, proportions=prp, start_time=d['start_time'] * tfac)
         b.add_deme(name, **kw)
     # equal rates in both directions over the same interval are written as one symmetric migration (demes=[a, b])
     used = set()
@@ -515,7 +524,11 @@ def to_demes(prog, time_units='generations', generation_time=None, scale=1.0, up
         else:
             b.add_migration(source=m['source'], dest=m['dest'], rate=m['rate'], start_time=m['start_time'] * tfac, end_time=m['end_time'] * tfac)
     for p in pulses:
-        b.add_pulse(sources=p['sources'], dest=p['dest'], proportions=p['proportions'], time=p['time'] * tfac)
+        src, prp = list(p['sources']), list(p['proportions'])
+        if lrs is not None and len(src) > 1:
+            o = list(lrs.permutation(len(src)))
+            src, prp = [src[i] for i in o], [prp[i] for i in o]
+        b.add_pulse(sources=src, dest=p['dest'], proportions=prp, time=p['time'] * tfac)
     g = b.resolve()
     sampled, times = [], []
     for ax in (axes if snap is None else snap):
